@@ -399,6 +399,14 @@ def facade_calls(env, rng):
             continue
         seen.add(label)
         out.append((label, c, a))
+        if c.xfer == "ata":
+            # the commands whose data a caller decodes: IDENTIFY (PACKET) DEVICE, one 512-byte sector in
+            for cmdbyte in (0xEC, 0xA1):
+                b = dict(a)
+                b.update({"command": cmdbyte, "protocal": 4, "t_dir": 1, "t_length": 2, "byte_block": 1, "t_type": 0, "count": 1, "fetures": 0, "lba": 0, "off_line": 0, "data": None})
+                if "blocksize" in b:
+                    b["blocksize"] = 512
+                out.append(("%s:identify_%02X" % (label, cmdbyte), c, b))
     return out
 
 
@@ -578,6 +586,14 @@ def run_facade(shard, ctx, env, rng):
                         ctx.fail("C07:%s.facade.exception_replaced" % t, "%s: caller got %r, device raised %r" % (label, exc, raised_by_device["exc"]), wit)
                     if unm["n"]:
                         ctx.fail("C07:%s.facade.decoded_after_failure" % t, "%s: unmarshall ran %d times although status was %02Xh" % (label, unm["n"], status), wit)
+                if status != 0 and outcome == "returned":
+                    # (legitimate only where the caller asked for the raw sense: ATA pass-through over SG_IO) the data-in buffer of a
+                    # command that failed is not decoded, the command carries no result
+                    res = getattr(ret, "result", None)
+                    if unm["n"] or res:
+                        ctx.fail("C07:%s.facade.decoded_after_failure" % t, "%s returned after status %02Xh and %s" % (
+                            label, status, "unmarshall ran %d times" % unm["n"] if unm["n"] else "the command carries a result with %d entries" % len(res)), wit)
+                    ctx.count("returned_failures_checked_for_decoding")
                 if status == 0 and outcome == "raised" and "exc" in raised_by_device:
                     ctx.fail("C07:%s.facade.good_status_raises" % t, "%s raised %r on GOOD" % (label, exc), wit, exc=exc)
     finally:
